@@ -239,6 +239,8 @@ def check(prop, tier, seed, relock=False, only=None, jobs=None):
             "by_backend": backends,
             "solver_time_s": round(sum(x.get("time_s", 0) for c in by_clause for x in by_clause[c]), 3),
             "generated_not_claimed": sorted(set(undecided)),
+            "slowest_claimed_clauses": sorted(((round(max(x.get("time_s", 0) for x in by_clause[c]), 2), c) for c in by_clause if c in claimed
+                                               and not c.startswith("specpart.c:")), reverse=True)[:5],
             "bounded": [{k: v for k, v in b.items() if k != "violations"} for b in bounded],
             "concrete_replays": sum(x.get("concrete_runs", 0) for c in by_clause for x in by_clause[c][:1]),
             "samples": samples or [{"note": "no deductive obligations for this property; see bounded"}],
